@@ -107,6 +107,7 @@ def csv_roundtrip(nrows, enc, blocked, shapes=None, pdsmax=200):
 
         def rp():
             return {'kind': 'csv', 'args': {'rows': [{c: f(ev) for c, f in w.items()} for w in wit], 'cols': allcols, 'enc': enc, 'blocked': blocked}}
+        core.set_fallback(rp, 'C20/concretised')
         ipm = RopeFile()
         with guard('mci_csv_to_ipm', 'C20/exception', rp):
             m.mci_csv_to_ipm.mci_csv_to_ipm(models.CsvIn(allcols, rows), ipm, config, out_encoding=enc, no1014blocking=not blocked)
@@ -151,6 +152,7 @@ def cli_entry_points():
             row[c], exp[c], _ = cell(c, cfgs, '_cli')
         cols = list(row)
         rp = {'kind': 'cli', 'args': {'in_enc': in_enc, 'out_enc': out_enc, 'ipm_enc': ipm_enc, 'noblock': noblock}}
+        core.set_fallback(rp, 'C20/concretised')
         models.VFS.reset()
         models.VFS.files['in.csv'] = models.CsvIn(cols, [row])
         with contextlib.redirect_stdout(_io.StringIO()):
